@@ -358,7 +358,7 @@ type c12Model struct {
 	endErr       string // canonical error expected from Err after the terminating false Next ("nil" if none)
 	cancelled    bool
 	frozen       *[]string // side effects observed when the query was closed; nothing may be added later
-	last         string    // answer text of the most recent true Next, "?" when Scan content is not asserted
+	last         string    // answer text of the most recent true Next (it stays that after the end and after Close), "?" before the first one: not asserted
 	ticks        []string
 	trueNexts    int
 	afterEnd     int // calls made after exhaustion/error/Close
@@ -502,7 +502,7 @@ func (c12) Exec(r *kit.Run) {
 					want := false
 					switch {
 					case m.closed || m.ended:
-						m.last = "?"
+						// (the most recent answer stays the most recent answer)
 					case !m.cancelled:
 						for {
 							it := m.at(m.pos)
@@ -519,7 +519,6 @@ func (c12) Exec(r *kit.Run) {
 								break
 							}
 							m.ended = true
-							m.last = "?"
 							if it.kind == 'x' {
 								m.endErr = it.s
 							}
@@ -539,7 +538,7 @@ func (c12) Exec(r *kit.Run) {
 							want, m.last, m.pos = true, it.s, p+1
 							m.trueNexts++
 						} else {
-							m.ended, m.last = true, "?"
+							m.ended = true
 							m.endErr = "ctx"
 							if it.kind == 'e' {
 								m.endErr = "ctx|nil"
